@@ -325,17 +325,17 @@ the tie checks against the skeleton of every real call. -/
 section tracksV1
 open EngineModel.TracksV1 EngineModel.Spec.Stmts
 
-theorem C14_tracks_v1_program (o : Fl.FOps) (d d' : TracksV1.Db) (op : TracksV1.TOp) (auto : Bool)
+theorem C14_tracks_v1_program (o : EngineModel.TracksV1.Fl.FOps) (d d' : TracksV1.Db) (op : TracksV1.TOp) (auto : Bool)
     (h : TracksV1.topStep o d op = .ok d') :
     (call none auto (TracksV1.topStmts o op) d).raised = false ∧
     (call none auto (TracksV1.topStmts o op) d).conn = Conn.idle d' :=
   TracksV1.topStmts_run o d d' op auto h
 
-theorem C14_tracks_v1_shape (o : Fl.FOps) (op : TracksV1.TOp) :
+theorem C14_tracks_v1_shape (o : EngineModel.TracksV1.Fl.FOps) (op : TracksV1.TOp) :
     atomicShape (TracksV1.topShapeOf o op) = true ∧ skeleton (TracksV1.topShapeOf o op) = op.skeleton.kinds :=
   ⟨TracksV1.topStmts_atomic o op, TracksV1.topStmts_skeleton o op⟩
 
-theorem C14_tracks_v1_all_or_nothing (o : Fl.FOps) (d : TracksV1.Db) (op : TracksV1.TOp) (k : Nat) (auto : Bool)
+theorem C14_tracks_v1_all_or_nothing (o : EngineModel.TracksV1.Fl.FOps) (d : TracksV1.Db) (op : TracksV1.TOp) (k : Nat) (auto : Bool)
     (hk : k < countFaultable (TracksV1.topShapeOf o op)) :
     (call (some k) auto (TracksV1.topStmts o op) d).raised = true ∧
     (call (some k) auto (TracksV1.topStmts o op) d).conn = Conn.idle d :=
